@@ -49,7 +49,22 @@ def pin_st():
 
 
 def store_st():
-    return st.lists(pin_st(), max_size=12).map(lambda l: list({(h, p): [h, p, f] for h, p, f in l}.values()))
+    base = st.lists(pin_st(), max_size=12).map(lambda l: list({(h, p): [h, p, f] for h, p, f in l}.values()))
+
+    def with_lookalikes(t):
+        # a second pin whose name differs from an existing one only in letter case, Unicode form or a trailing dot
+        import unicodedata
+
+        l, k, how = t
+        if not l or how == 0:
+            return l
+        h, p, f = l[k % len(l)]
+        alt = {1: h.swapcase(), 2: h.upper(), 3: unicodedata.normalize("NFD", h), 4: h + ".", 5: h.lower()}[how]
+        if alt != h and not any(x[0] == alt and x[1] == p for x in l):
+            l = l + [[alt, p, FPS[(FPS.index(f) + 1) % 3]]]
+        return l
+
+    return st.tuples(base, st.integers(0, 11), st.sampled_from([0, 0, 0, 1, 2, 3, 4, 5])).map(with_lookalikes)
 
 
 DEFECTS = ["missing-hostname", "missing-port", "missing-fingerprint", "missing-first_seen", "missing-last_seen", "port-0",
